@@ -9,6 +9,7 @@ package main
 
 import (
 	"go/constant"
+	"go/types"
 	"sort"
 	"strings"
 
@@ -177,7 +178,11 @@ func (v *Verifier) underContractFor(key string) bool {
 // inlined, by that contract). A function without callers is an entry point and
 // is not covered.
 func (v *Verifier) coveredByCallers(fn *ssa.Function, callers map[*ssa.Function][]*ssa.Function, depth int, seen map[*ssa.Function]bool) bool {
-	if v.underContractFor(v.Prog.funcKey(fn)) {
+	if v.coveredPred != nil {
+		if v.coveredPred(v.Prog.funcKey(fn)) {
+			return true
+		}
+	} else if v.underContractFor(v.Prog.funcKey(fn)) {
 		return true
 	}
 	if depth > 4 || seen[fn] {
@@ -228,4 +233,56 @@ func (v *Verifier) addEffectSweep(label string, sites func(fn *ssa.Function) []s
 		}
 		v.Obls = append(v.Obls, ob)
 	}
+}
+
+// smsKeySites: writes of the session keys that carry the SMS login state
+// (sms_pending / sms_secret, compared by VALUE: a refactor that makes another
+// module write the same key value is a writer too).
+func (p *Program) smsKeySites(fn *ssa.Function) []sweepSite {
+	keys := map[string]bool{}
+	if sp := p.ByPkg[p.Module+"/otp/twofactor/sms2fa"]; sp != nil {
+		for _, n := range []string{"SessionSMSPendingPID", "SessionSMSSecret"} {
+			if c, ok := sp.Pkg.Scope().Lookup(n).(*types.Const); ok && c.Val().Kind() == constant.String {
+				keys[constant.StringVal(c.Val())] = true
+			}
+		}
+	}
+	var out []sweepSite
+	for _, b := range fn.Blocks {
+		for _, ins := range b.Instrs {
+			c, ok := ins.(ssa.CallInstruction)
+			if !ok {
+				continue
+			}
+			callee := c.Common().StaticCallee()
+			if callee == nil || callee.Pkg == nil || callee.Pkg.Pkg.Path() != abPkg || callee.Name() != "PutSession" {
+				continue
+			}
+			args := c.Common().Args
+			if len(args) < 2 {
+				continue
+			}
+			if k, ok := constString(args[1]); ok {
+				if keys[k] {
+					out = append(out, sweepSite{p.posOf(ins), "PutSession(" + k + ")"})
+				}
+			} else {
+				out = append(out, sweepSite{p.posOf(ins), "PutSession with a non-constant key"})
+			}
+		}
+	}
+	return out
+}
+
+func (v *Verifier) hasClause(key, label string) bool {
+	fc := v.CS.Funcs[key]
+	if fc == nil {
+		return false
+	}
+	for _, c := range fc.Clauses {
+		if c.Kind == "ensures" && c.Label == label && c.appliesTo(v.Prop, fc) {
+			return true
+		}
+	}
+	return false
 }
